@@ -128,6 +128,25 @@ func (e *SpecEnv) resolveTypeIn(pkgPath string, t *TypeExpr) (types.Type, error)
 	return sub.resolveType(t)
 }
 
+// ghostGlobal resolves a package-level ghost variable (a state component of its own).
+func (e *SpecEnv) ghostGlobal(pkgPath, name string) (tv, bool) {
+	te, ok := e.vc.g.ghostGlobals[pkgPath+"."+name]
+	if !ok {
+		return tv{}, false
+	}
+	ty, err := e.resolveTypeIn(pkgPath, te)
+	if err != nil {
+		return tv{}, false
+	}
+	h := ghostGlobalHeap(pkgPath, name)
+	if _, ok := e.vc.d.heapSort[h]; !ok {
+		e.vc.d.heapSort[h] = e.vc.d.sortOf(ty)
+	}
+	return tv{t: e.heap(h), ty: ty}, true
+}
+
+func ghostGlobalHeap(pkgPath, name string) string { return "HG." + shortKey(pkgPath) + "." + name }
+
 func (e *SpecEnv) constObj(c *types.Const) tv {
 	d := e.vc.d
 	switch c.Val().Kind() {
@@ -202,6 +221,9 @@ func (e *SpecEnv) expr(x Expr) (tv, error) {
 				return tv{t: l.structRef, ty: types.NewPointer(l.structT), addr: true}, nil
 			}
 			return tv{t: vc.loadLoc(e.st, l), ty: l.ty}, nil
+		}
+		if gv, ok := e.ghostGlobal(e.pkgPath, n.Name); ok {
+			return gv, nil
 		}
 		v, ok, err := e.lookupPkgObj(e.pkg, n.Name)
 		if err != nil {
@@ -587,6 +609,9 @@ func (e *SpecEnv) sel(n *ESel) (tv, error) {
 		if _, isVar := e.vars[id.Name]; !isVar {
 			if _, isLazy := e.lazy[id.Name]; !isLazy {
 				if p := e.vc.g.importedPkg(e.pkg, id.Name); p != nil {
+					if gv, ok := e.ghostGlobal(p.Path(), n.Sel); ok {
+						return gv, nil
+					}
 					v, ok, err := e.lookupPkgObj(p, n.Sel)
 					if err != nil {
 						return tv{}, err
@@ -975,6 +1000,11 @@ func (e *SpecEnv) modTargets(x Expr) ([]modTarget, error) {
 			}
 		}
 	case *EIdent:
+		if _, isVar := e.vars[n.Name]; !isVar {
+			if _, ok := e.ghostGlobal(e.pkgPath, n.Name); ok {
+				return []modTarget{{heap: ghostGlobalHeap(e.pkgPath, n.Name)}}, nil
+			}
+		}
 		base, err := e.expr(n)
 		if err != nil {
 			return nil, err
